@@ -1,4 +1,5 @@
 import GlyModel.Generated.Tables
+import GlyModel.Smiles.Graph
 /-
   C14 — Skeleton-changing prefixes and suffixes perform their defining transformation. (Property theorems only.)
 -/
@@ -33,5 +34,50 @@ theorem C14_onic_text (rest : List Char) : onic ('O' :: 'C' :: rest) = "OC(=O)".
 /-- `-aric` on a row ending `…CO`: the terminal `O` is dropped and `(=O)O` appended, i.e. the text ends `…C(=O)O`. -/
 theorem C14_aric_text (body : List Char) : aricEnd (body ++ ['C', 'O']) = body ++ "C(=O)O".toList := by
   simp [aricEnd, List.dropLast_append_cons]
+
+open Gly.Smi in
+/-- delete atom `k` from the events: drop the events that mention it, move higher indices down by one -/
+def dropAtom (k : Nat) (evs : List Ev) : List Ev :=
+  (evs.filter (fun e => match e with
+    | .bond i j _ => i != k && j != k
+    | .ropen i _ _ => i != k
+    | .rclose i q _ _ => i != k && q != k)).map (Ev.map (fun i => if i > k then i - 1 else i))
+
+open Gly.Smi in
+/-- Graph-level meaning of the `-onic` rewrite, decided by the kernel for **every** open-form row that starts `OC`: the
+    rewritten text denotes the row's molecule plus exactly one atom – an `O`, double-bonded to C1 (atom 1, the carbon of the
+    primary alcohol at the start of the text) – and nothing else changes: same atoms with the same stereo marks in the same
+    order, same bonds, same neighbour order. -/
+def onicOk (r : MonoRow) : Bool :=
+  if !startsWith "OC".toList r.smiles then true else
+  match semOfChars r.smiles, semOfChars (onic r.smiles) with
+  | some ma, some mb =>
+    mb.atoms == ma.atoms.take 2 ++ [['O']] ++ ma.atoms.drop 2 &&
+    mb.evs.contains (Ev.bond 1 2 (some '=')) &&
+    dropAtom 2 mb.evs == ma.evs
+  | _, _ => false
+
+theorem C14_onic_table : openTable.all onicOk = true := by decide +kernel
+
+open Gly.Smi in
+/-- Likewise `-aric`'s second rewrite on every row ending `CO` (the 6-deoxy rows end in `C` and are excluded by the code for
+    `Qui` only – the others are listed by `C14_aric_excluded`): one `O` more, double-bonded to the last carbon. -/
+def aricEndOk (r : MonoRow) : Bool :=
+  if !endsWith "CO".toList r.smiles then true else
+  match semOfChars r.smiles, semOfChars (aricEnd r.smiles) with
+  | some ma, some mb =>
+    let n := ma.atoms.length
+    mb.atoms == ma.atoms.take (n - 1) ++ [['O'], ['O']] &&
+    mb.evs.contains (Ev.bond (n - 2) (n - 1) (some '=')) &&
+    dropAtom (n - 1) mb.evs == ma.evs
+  | _, _ => false
+
+theorem C14_aric_table : openTable.all aricEndOk = true := by decide +kernel
+
+/-- rows on which the `-aric` end rewrite does not mean "oxidise the terminal CH2OH" (they do not end in `CO`) -/
+theorem C14_aric_excluded :
+    (openTable.filter (fun r => !endsWith "CO".toList r.smiles)).all (fun r =>
+      ["QUI-OL", "RHA-OL", "FUC-OL", "INS", "6DALT-OL", "6DTAL-OL", "6DGUL-OL", "OLI-OL", "TYV-OL", "ABE-OL", "PAR-OL", "DIG-OL", "COL-OL"].contains (String.ofList r.key)) = true := by
+  decide +kernel
 
 end Gly.Props.C14
